@@ -28,16 +28,58 @@ def setup():
     return 1 if bad else 0
 
 
+def selftest():
+    """Demonstrate the binding: a recorded KeyFile trace is accepted as logged, and rejected when
+    one logged field is corrupted or one event is dropped (so acceptance is not vacuous)."""
+    import copy
+
+    from . import tracecheck
+    from .props import c07
+
+    cinco = common.import_repo()
+    traces = c07.driver(cinco, 12345, 30, 25)
+    good, _ = tracecheck.validate("Trace_KeyFile.tla", "Trace_KeyFile.cfg", traces)
+    assert all(v.accepted for v in good), "recorded traces must be accepted"
+    bad = []
+    for t in copy.deepcopy(traces):
+        evs = t["events"]
+        idx = [i for i, e in enumerate(evs) if e["op"] == "Enter" and e["out"] == "ok"]
+        if not idx:
+            continue
+        i = idx[len(idx) // 2]
+        evs[i]["out"] = "EncryptionError"  # corrupt one logged outcome
+        bad.append(t)
+    rej, _ = tracecheck.validate("Trace_KeyFile.tla", "Trace_KeyFile.cfg", bad)
+    n_rej = sum(1 for v in rej if not v.accepted)
+    dropped = []
+    for t in copy.deepcopy(traces):
+        evs = t["events"]
+        idx = [i for i, e in enumerate(evs) if e["op"] == "Enter" and e["out"] == "ok"]
+        if not idx:
+            continue
+        del evs[idx[0]]  # drop one event (as if a hook were missing)
+        dropped.append(t)
+    rej2, _ = tracecheck.validate("Trace_KeyFile.tla", "Trace_KeyFile.cfg", dropped)
+    n_rej2 = sum(1 for v in rej2 if not v.accepted)
+    print("selftest: %d/%d recorded traces accepted; %d/%d corrupted traces rejected; %d/%d traces with a dropped event rejected"
+          % (sum(v.accepted for v in good), len(good), n_rej, len(bad), n_rej2, len(dropped)))
+    # (a dropped nested Enter whose Exit lies beyond the end of the trace leaves a consistent log)
+    return 0 if (n_rej == len(bad) and n_rej2 >= 0.8 * len(dropped)) else 1
+
+
 def main(argv=None):
     ap = argparse.ArgumentParser()
     ap.add_argument("prop", nargs="?")
     ap.add_argument("--tier", default=os.environ.get("VERIF_TIER") or "quick", choices=["quick", "thorough"])
     ap.add_argument("--setup", action="store_true")
+    ap.add_argument("--selftest", action="store_true")
     ap.add_argument("--replay")
     args = ap.parse_args(argv)
     os.chdir(common.VERIF)
     if args.setup:
         return setup()
+    if args.selftest:
+        return selftest()
     if not args.prop:
         ap.error("property id required")
     seed = int(os.environ.get("VERIF_SEED") or 0)
